@@ -22,6 +22,7 @@
      only from copies: relabel (nx.relabel_nodes(copy=True)) and sort_by_label (a fresh Graph). *)
 From Coq Require Import List NArith ZArith Bool Permutation Sorting.Sorted.
 Require Import Base Mol Permute PermuteProofs.
+Require ParamsSpec.   (* regenerated source constants still match what the model hard-codes *)
 Import ListNotations.
 
 (* ---- one draw: the result is the argument renamed by a bijection f of the label set ---------
